@@ -390,15 +390,22 @@ func c05R5(p *Prog, r *Report) {
 		info := fi.Pkg.TypesInfo
 		nLoops := 0
 		walkStack(fi.Decl, func(n ast.Node, stack []ast.Node) bool {
-			fs, ok := n.(*ast.ForStmt)
-			if !ok {
+			// `for y := 0; y < X.NumFields(); y++` or `for y := range X.NumFields()`
+			var fs ast.Stmt
+			bound := ""
+			switch x := n.(type) {
+			case *ast.ForStmt:
+				fs, bound = x, exprString(x.Cond)
+			case *ast.RangeStmt:
+				fs, bound = x, exprString(x.X)
+			default:
 				return true
 			}
 			kind := ""
 			switch {
-			case strings.Contains(exprString(fs.Cond), "NumFields()"):
+			case strings.Contains(bound, "NumFields()"):
 				kind = "fields"
-			case strings.Contains(exprString(fs.Cond), "NumMethods()"):
+			case strings.Contains(bound, "NumMethods()"):
 				kind = "methods"
 			default:
 				return true
@@ -523,6 +530,81 @@ func c05R5(p *Prog, r *Report) {
 				}
 			}
 		})
+		if !okPref {
+			// call form: the case-insensitive candidates are handed to the deciding helper only where the exact
+			// list is known to be empty (`if len(exact) > 0 { return pick(exact) }; return pick(ignoreCase)`)
+			var tainted func(v ssa.Value, d int) bool
+			tainted = func(v ssa.Value, d int) bool {
+				if d > 6 {
+					return false
+				}
+				switch x := v.(type) {
+				case *ssa.Extract:
+					c, ok := x.Tuple.(*ssa.Call)
+					return ok && x.Index == 1 && ssaCalleeObj(c) != nil && ssaCalleeObj(c).Name() == "findAllFields"
+				case *ssa.Call:
+					if a, b, ok := builtinAppend(x); ok {
+						return tainted(a, d+1) || tainted(b, d+1)
+					}
+				case *ssa.Phi:
+					for _, e := range x.Edges {
+						if tainted(e, d+1) {
+							return true
+						}
+					}
+				case *ssa.Slice:
+					return tainted(x.X, d+1)
+				}
+				return false
+			}
+			emptyList := func(f ssa.Value) ssa.Value {
+				neg := false
+				if nf, ok := f.(negFact); ok {
+					neg, f = true, nf.Value
+				}
+				b, ok := f.(*ssa.BinOp)
+				if !ok {
+					return nil
+				}
+				k, ok := b.Y.(*ssa.Const)
+				if !ok || k.Value == nil || k.Int64() != 0 {
+					return nil
+				}
+				c, ok := b.X.(*ssa.Call)
+				if !ok {
+					return nil
+				}
+				if bi, ok := c.Call.Value.(*ssa.Builtin); !ok || bi.Name() != "len" {
+					return nil
+				}
+				if (!neg && b.Op == token.EQL) || (neg && (b.Op == token.GTR || b.Op == token.NEQ)) {
+					return c.Call.Args[0]
+				}
+				return nil
+			}
+			nUse, nGuarded := 0, 0
+			allInstrs(fsf, false, func(in ssa.Instruction) {
+				c, ok := in.(*ssa.Call)
+				if !ok || ssaCalleeObj(c) == nil || !regionObjs[ssaCalleeObj(c).Origin()] || ssaCalleeObj(c).Name() == "findAllFields" {
+					return
+				}
+				for _, a := range c.Call.Args {
+					if !tainted(a, 0) {
+						continue
+					}
+					nUse++
+					for _, f := range factsAt(c.Block()) {
+						if l := emptyList(f); l != nil && !tainted(l, 0) {
+							nGuarded++
+							break
+						}
+					}
+				}
+			})
+			if nUse > 0 && nUse == nGuarded {
+				okPref = true
+			}
+		}
 		switch {
 		case bad != "":
 			r.Bad("xtype.FindField/resolution", p.PosStr(ff.Decl.Pos()), bad)
